@@ -143,7 +143,7 @@ class ImperialistCompetitiveOptimization(OptimizationAbstract):
                         del exchange[index]
                     # select the candidates to exchange with
                     exchange_candidates = np.random.choice(exchange, number_of_tasks)
-                    new_colony_representation = colony_representation
+                    new_colony_representation = list(colony_representation)
                     # exchange the candidates
                     for (x, y) in zip(candidates, exchange_candidates):
                         new_colony_representation[x], new_colony_representation[y] = (
